@@ -47,6 +47,90 @@ theorem tie_bind {α β α' β' : Type} (va : α → α') (vb : β → β')
     | error e => rfl
     | ok a => exact h2 a c1 l1
 
+/-! ## one register access at a time (SX127x): the generated `read_register` / `write_register` against the model's -/
+open Gen.PhyCodes127 in
+/-- what a generated `read_register(r)` must evaluate to on the chip (proved per unit by evaluation) -/
+def IsRead127 (m : IoM Gen.PhyErr.RadioError Chip Int) (r : Gen.PhyCodes127.Register) : Prop :=
+  ∀ (c : Chip) (log : List Ev), m chipDev c log =
+    some (.ok ((byteAt (c.transact [Sx127x.rd r] 1).1 0 : Nat) : Int), (c.transact [Sx127x.rd r] 1).2,
+      log ++ [Ev.spi [((Sx127x.rd r).toNat : Int)] 1, Ev.busy])
+
+/-- what a generated `write_register(r, v)` must evaluate to on the chip -/
+def IsWrite127 (m : IoM Gen.PhyErr.RadioError Chip Unit) (r : Gen.PhyCodes127.Register) (v : Int) : Prop :=
+  ∀ (c : Chip) (log : List Ev), m chipDev c log =
+    some (.ok (), (c.transact [Sx127x.wr r, byte v] 0).2, log ++ [Ev.spi [((Sx127x.wr r).toNat : Int), v] 0, Ev.busy])
+
+theorem denote_readRegister_bind {β : Type} (r : Gen.PhyCodes127.Register) (g : UInt8 → Prog β) (c : Chip) (log : List Ev) :
+    denote (Prog.bind (Sx127x.readRegister r) g) c log =
+      denote (g (UInt8.ofNat (byteAt (c.transact [Sx127x.rd r] 1).1 0))) (c.transact [Sx127x.rd r] 1).2
+        (log ++ [Ev.spi [((Sx127x.rd r).toNat : Int)] 1, Ev.busy]) := by
+  simp only [Sx127x.readRegister, Model.Phy.bind_eq, Model.Phy.pure_eq_ret, prog_bind_assoc, denote_intfRead_bind, Model.Phy.bind_ret,
+    toInts_cons, toInts_nil]
+
+theorem denote_writeRegister_bind {β : Type} (r : Gen.PhyCodes127.Register) (u : UInt8) (g : Unit → Prog β) (c : Chip) (log : List Ev) :
+    denote (Prog.bind (Sx127x.writeRegister r u) g) c log =
+      denote (g ()) (c.transact [Sx127x.wr r, u] 0).2 (log ++ [Ev.spi [((Sx127x.wr r).toNat : Int), (u.toNat : Int)] 0, Ev.busy]) := by
+  simp only [Sx127x.writeRegister, denote_intfWrite_bind, toInts_cons, toInts_nil, Bool.false_eq_true, if_false]
+
+theorem denote_writeRegister (r : Gen.PhyCodes127.Register) (u : UInt8) (c : Chip) (log : List Ev) :
+    denote (Sx127x.writeRegister r u) c log =
+      some (.ok (), (c.transact [Sx127x.wr r, u] 0).2, log ++ [Ev.spi [((Sx127x.wr r).toNat : Int), (u.toNat : Int)] 0, Ev.busy]) := by
+  simp only [Sx127x.writeRegister, denote_intfWrite, toInts_cons, toInts_nil, Bool.false_eq_true, if_false]
+
+/-- a read on both sides: the continuations are compared for every byte the chip may answer -/
+theorem tie_read {β β' : Type} (vb : β → β') (m : IoM Gen.PhyErr.RadioError Chip Int) (r : Gen.PhyCodes127.Register) (hm : IsRead127 m r)
+    (f : Int → IoM Gen.PhyErr.RadioError Chip β) (g : UInt8 → Prog β') (c : Chip) (log : List Ev)
+    (h : ∀ (b : UInt8) (c1 : Chip) (log1 : List Ev), view vb (f (b.toNat : Int) chipDev c1 log1) = denote (g b) c1 log1) :
+    view vb ((m >>= f) chipDev c log) = denote (Prog.bind (Sx127x.readRegister r) g) c log := by
+  rw [denote_readRegister_bind, bind_def]
+  simp only [IoM.bind, hm c log]
+  rw [← h]
+  have e : byteAt (c.transact [Sx127x.rd r] 1).1 0 % 2 ^ 8 = byteAt (c.transact [Sx127x.rd r] 1).1 0 :=
+    Nat.mod_eq_of_lt (byteAt_lt _ _)
+  simp only [UInt8.toNat_ofNat', e]
+
+/-- a write on both sides: the same byte (`v` is the value of the model's byte `u`), then the continuations -/
+theorem tie_write {β β' : Type} (vb : β → β') (m : IoM Gen.PhyErr.RadioError Chip Unit) (r : Gen.PhyCodes127.Register) (v : Int) (hm : IsWrite127 m r v)
+    (u : UInt8) (hv : v = (u.toNat : Int))
+    (f : Unit → IoM Gen.PhyErr.RadioError Chip β) (g : Unit → Prog β') (c : Chip) (log : List Ev)
+    (h : ∀ (c1 : Chip) (log1 : List Ev), view vb (f () chipDev c1 log1) = denote (g ()) c1 log1) :
+    view vb ((m >>= f) chipDev c log) = denote (Prog.bind (Sx127x.writeRegister r u) g) c log := by
+  rw [denote_writeRegister_bind, bind_def]
+  simp only [IoM.bind, hm c log]
+  subst hv
+  rw [← h, byte_toNat]
+
+/-- a write in tail position -/
+theorem tie_write_last (m : IoM Gen.PhyErr.RadioError Chip Unit) (r : Gen.PhyCodes127.Register) (v : Int) (hm : IsWrite127 m r v)
+    (u : UInt8) (hv : v = (u.toNat : Int)) (c : Chip) (log : List Ev) :
+    view id (m chipDev c log) = denote (Sx127x.writeRegister r u) c log := by
+  rw [denote_writeRegister, hm c log]
+  subst hv
+  simp only [view, byte_toNat, id]
+
+/-- a write in tail position of the model, followed by nothing but `Ok(())` in the driver -/
+theorem tie_write_end (m : IoM Gen.PhyErr.RadioError Chip Unit) (r : Gen.PhyCodes127.Register) (v : Int) (hm : IsWrite127 m r v)
+    (u : UInt8) (hv : v = (u.toNat : Int)) (f : Unit → IoM Gen.PhyErr.RadioError Chip Unit)
+    (hf : ∀ (c1 : Chip) (log1 : List Ev), f () chipDev c1 log1 = some (.ok (), c1, log1)) (c : Chip) (log : List Ev) :
+    view id ((m >>= f) chipDev c log) = denote (Sx127x.writeRegister r u) c log := by
+  rw [denote_writeRegister, bind_def]
+  simp only [IoM.bind, hm c log, hf]
+  subst hv
+  simp only [view, byte_toNat, id]
+
+/-- both sides are done -/
+theorem tie_done (c : Chip) (log : List Ev) :
+    view id ((pure () : IoM Gen.PhyErr.RadioError Chip Unit) chipDev c log) = denote (Prog.ret ()) c log := rfl
+
+/-- the values of byte expressions: the model's `UInt8` operations and the generated `Rt` operations on
+non-negative integers meet in `Nat` -/
+theorem andI_toNat (a b : Nat) : Rt.andI (a : Int) (b : Int) = ((a &&& b : Nat) : Int) := andI_nat a b
+theorem orI_toNat (a b : Nat) : Rt.orI (a : Int) (b : Int) = ((a ||| b : Nat) : Int) := orI_nat a b
+theorem andI_lit_r (a : Nat) (n : Nat) : Rt.andI (a : Int) (no_index (OfNat.ofNat n)) = ((a &&& n : Nat) : Int) := andI_nat a n
+theorem orI_lit_r (a : Nat) (n : Nat) : Rt.orI (a : Int) (no_index (OfNat.ofNat n)) = ((a ||| n : Nat) : Int) := orI_nat a n
+theorem orI_lit_l (a : Nat) (n : Nat) : Rt.orI (no_index (OfNat.ofNat n)) (a : Int) = ((n ||| a : Nat) : Int) := orI_nat n a
+theorem andI_lit_l (a : Nat) (n : Nat) : Rt.andI (no_index (OfNat.ofNat n)) (a : Int) = ((n &&& a : Nat) : Int) := andI_nat n a
+
 /-- `P lo ∧ P (lo + 1) ∧ … ∧ P (lo + n - 1)` -/
 def AllFrom (P : Int → Prop) : Int → Nat → Prop
   | _, 0 => True
